@@ -119,7 +119,7 @@ class StlAstParserVisitor(LtlAstParserVisitor, StlParserVisitor):
         out = Fraction(Decimal(val))
 
         if ctx.unit() is None:
-            unit = 'default'
+            unit = ''
         else:
             unit = ctx.unit().getText()
 
